@@ -58,7 +58,7 @@ pub struct Obs {
 }
 
 pub type O = Observable<'static, i64>;
-pub const OBS_BASE: i64 = 100000;
+pub const OBS_BASE: i64 = 100_000_000;
 
 #[derive(Clone)]
 pub enum Sbj {
